@@ -33,13 +33,14 @@ func init() {
 		},
 	}
 	Props["C02"] = PropDef{
-		Explanation: "R-REFLKIND: every kind-restricted reflect accessor in the encoder's writeValue is valid for every kind the tag table routes into that case (refined by switch val.Kind()). T-KIND: no asymmetric failure by kind between encoder and decoder (scalars and typed-array element kinds). R-NOMUT: encoding performs no reflect Set* on the caller's value. R-MARSHALER: custom marshalers write payload only; delegating unmarshalers re-inject the tag. Not decided: equality of values after the round trip, root-name propagation, byte-exactness of carriers in every position.",
+		Explanation: "R-REFLKIND: every kind-restricted reflect accessor in the encoder's writeValue is valid for every kind the tag table routes into that case (refined by switch val.Kind()). T-KIND: no asymmetric failure by kind between encoder and decoder (scalars and typed-array element kinds). R-NOMUT: encoding performs no reflect Set* on the caller's value. R-MARSHALER: custom marshalers write payload only; delegating unmarshalers re-inject the tag. R-NOALIAS: an append onto a slice held by another object (the index path of an embedding struct in the field cache) puts its result back there and is not kept under a second name. Not decided: equality of values after the round trip, root-name propagation, byte-exactness of carriers in every position.",
 		Run: func(c *Ctx) []core.Ob {
 			obs := c.ReflKind()
 			obs = append(obs, c.KindTables()...)
 			obs = append(obs, c.NoMutation()...)
 			obs = append(obs, c.NaturalTypes()...)
 			obs = append(obs, filterObs(c.MarshalerContract(), func(o core.Ob) bool { return strings.HasPrefix(o.Key, "nbt") })...)
+			obs = append(obs, c.AppendOwnership("nbt", "nbt/dynbt")...)
 			return obs
 		},
 	}
